@@ -2646,6 +2646,7 @@ class PatternParser:
     def __init__(self, ex, st, items, oracle=None, surrogates=False):
         self.ex, self.st, self.items, self.i, self.oracle = ex, st, list(items), 0, oracle
         self.surrogates = surrogates      # re-pair \u{d8xx}\u{dcxx} escapes into one code point (output of the surrogate option)
+        self.side = []                    # conditions under which the BARE symbolic characters met so far are literals for the regex crate
 
     def peek(self):
         return concrete(self.items[self.i]) if self.i < len(self.items) else None
@@ -2759,6 +2760,11 @@ class PatternParser:
             raise Inconclusive('unexpected metacharacter %r in the printed pattern at %d' % (chr(c), self.i))
         x = self.items[self.i]
         self.i += 1
+        if c is None and self.oracle is not None and 'lit_bare_ok' in self.oracle:
+            # a bare symbolic character stands for itself only if the regex crate reads it as that literal (not a metacharacter)
+            cond = in_ranges(x, self.oracle['lit_bare_ok'])
+            if not self.ex.must(self.st, cond):
+                self.side.append(cond)
         return [[x]]
 
     def hex_escape(self):
@@ -2910,7 +2916,8 @@ def q02t(ctx, lens=(2, 2), with_empty=False, domain='letters', settings=None):
                 bads.append(z3.And(*o2.st.pc))
                 continue
             try:
-                words, start, end = PatternParser(ex, o2.st, items, ctx.oracle, surrogates=bool(settings.get('surrogates'))).parse()
+                P_ = PatternParser(ex, o2.st, items, ctx.oracle, surrogates=bool(settings.get('surrogates')))
+                words, start, end = P_.parse()
             except InfiniteLanguage:
                 ob.classes_seen['unbounded-quantifier'] = ob.classes_seen.get('unbounded-quantifier', 0) + 1
                 bads.append(z3.And(*o2.st.pc))
@@ -2918,6 +2925,9 @@ def q02t(ctx, lens=(2, 2), with_empty=False, domain='letters', settings=None):
             if start != (not settings.get('no_start_anchor')) or end != (not settings.get('no_end_anchor')):
                 bads.append(z3.And(*o2.st.pc))
                 continue
+            if P_.side:
+                # a character printed bare must be one the regex crate reads as that literal (not a metacharacter)
+                bads.append(z3.And(*o2.st.pc, z3.Not(z3.And(*P_.side))))
             if all(is_bv(e_) for w_ in words for e_ in w_):
                 bads.append(z3.And(*o2.st.pc, z3.Not(set_eq(inputs, words))))
             else:
@@ -4430,4 +4440,69 @@ def q01s(ctx, lens=(2, 1), settings=(), thresholds=(1, 1)):
                         max_models=ctx.cap('Q01s'), workdir=ctx.workdir,
                         second=tuple(x for x in ctx.second if not (getattr(ctx, 'tier', 'quick') == 'quick' and x.startswith('cvc5'))),
                         second_timeout_s=getattr(ctx, 'second_timeout', 60), blocker=blocker)
+    return ob
+
+
+# =========================================================================== Q05n  nested repetitions: real conversion + real printing of one test case
+@guarded
+def q05n(ctx, template='xxbxxbdxxbxxbd', escape=False):
+    """Q05n: one test case with repetitions nested several levels deep: after GraphemeCluster::convert_repetitions and Display for the literal, every character of the test case is still written as text the regex crate reads as that literal, and the pattern denotes exactly the test case"""
+    ob = Obligation('Q05n[%s]%s' % (template, '[escape]' if escape else ''), q05n.__doc__)
+    ob.domain = ('one test case of the shape %s where x is ONE symbolic code point (every scalar value except the other letters of the template and the backslash) and the other '
+                 'letters stand for themselves; thresholds 1/1; non-ASCII escaping %s' % (template, 'on' if escape else 'off'))
+    ob.bound = 'this template'
+    x = z3.BitVec('x', 32)
+    others = sorted(set(ord(ch) for ch in template if ch != 'x'))
+    assume = [valid_char(x), x != BV(92, 32)] + [x != BV(o_, 32) for o_ in others]
+    # x is one grapheme on its own and is not glued to its neighbours: not a mark / format / control character
+    assume += [z3.Not(in_ranges(x, ctx.oracle['gc_mark'])), z3.Not(in_ranges(x, ctx.oracle['gc_other']))]
+    cs = [x if ch == 'x' else BV(ord(ch), 32) for ch in template]
+    fields = ctx.mir.structs.get('RegExpConfig')
+    off = {k: (BV(1, 32) if k.startswith('minimum_') else z3.BoolVal(False)) for k in fields}
+    off['is_repetition_converted'] = z3.BoolVal(True)
+    off['is_non_ascii_char_escaped'] = z3.BoolVal(bool(escape))
+    cfgv = config_value(ctx, off)
+    ex = ctx.new_exec()
+    st = State(pc=list(assume))
+    cfg = st.ref(cfgv)
+    gs = [grapheme_value(ctx, st, [[c]], 1, 1, (False, False, False)) for c in cs]
+    cl = st.ref(cluster_value(ctx, st, gs, cfg))
+    f_conv = ctx.mir.one_fn(r'^cluster::<impl at [^>]*>::convert_repetitions$')
+    variants = ctx.mir.enums.get('Expression')
+    f_fmt = display_fmt_name(ctx, 'Expression')
+    t0 = time.time()
+    bads = []
+    npaths = 0
+    for o in ex.run_fn(st, f_conv, [cl]):
+        if o.panic:
+            bads.append(z3.And(*o.st.pc))
+            continue
+        ast = EnumV('Expression', 'Literal', variants.index('Literal'), (o.st.load(cl), z3.BoolVal(bool(escape)), z3.BoolVal(False)))
+        buf = o.st.ref(SymStr(()))
+        for o2 in ex.run_fn(o.st, f_fmt, [o.st.ref(ast), buf]):
+            npaths += 1
+            if o2.panic:
+                bads.append(z3.And(*o2.st.pc))
+                continue
+            items = list(o2.st.load(buf).items)
+            cls = re.sub(r'<[^>]*>', 'x', ''.join(chr(concrete(i_)) if concrete(i_) is not None else 'x' for i_ in items))
+            ob.classes_seen[cls] = ob.classes_seen.get(cls, 0) + 1
+            if escape and any((concrete(i_) is not None and concrete(i_) >= 0x80) or (concrete(i_) is None and not ex.must(o2.st, z3.ULT(i_, BV(0x80, 32)))) for i_ in items):
+                bads.append(z3.And(*o2.st.pc, z3.UGE(x, BV(0x80, 32))))        # escaping requested, but a non-ASCII character is printed bare
+                continue
+            P_ = PatternParser(ex, o2.st, items, ctx.oracle)
+            try:
+                words = P_.alternation()
+                if P_.i != len(items):
+                    raise Inconclusive('pattern text not fully parsed at position %d' % P_.i)
+            except InfiniteLanguage:
+                bads.append(z3.And(*o2.st.pc))
+                continue
+            literal_ok = z3.And(*P_.side) if P_.side else z3.BoolVal(True)
+            bads.append(z3.And(*o2.st.pc, z3.Not(z3.And(literal_ok, set_eq([cs], words)))))
+    ctx.finish(ob, ex, t0)
+    ob.paths = npaths
+    ob.verdict = decide(ob.qid, assume + ob.defs, z3.Or(*bads) if bads else z3.BoolVal(False), [x], all_sat=True, max_models=ctx.cap('Q05n'),
+                        second=ctx.second, workdir=ctx.workdir, second_timeout_s=getattr(ctx, 'second_timeout', 60))
+    ob.extra['template'] = template
     return ob
